@@ -50,7 +50,7 @@ def gen_script(rng, maxsel=4, maxwork=10, allow_reinit=True):
         # ---- work that touches caches and derived constants of what is selected
         for _ in range(rng.randint(0, maxwork)):
             pool = [('W_FAIL %d' % rng.below(3), 6), ('GETCODE', 8), ('RAND', 4), ('W_THROWOUT', 2),
-                    ('W_HASH %d' % rng.below(1000), 3), ('W_SSS', 2), ('W_PSI', 2)]
+                    ('W_HASH %d' % rng.below(1000), 3), ('W_SSS', 2), ('W_PSI', 2), ('W_STR %d' % rng.below(1000), 2)]
             if l1:
                 k = rng.bytes(rng.choice([1, 8, 20, 32])).hex()
                 pool += [('W_MULGEN ' + k, 10), ('W_MUL ' + k, 8), ('W_SIM ' + k, 6), ('W_PRE ' + k, 6),
